@@ -114,6 +114,9 @@ def _raise_on_second():
 UPDATES = {
     "tags_static": (lambda: dict(tags={"a": "y", "c": None}), lambda p: p.tags.update({"a": "y", "c": None})),
     "fields_callable": (lambda: dict(fields=lambda f: {"p": (f.get("p") or 0) + 1}), lambda p: p.fields.update({"p": (p.fields.get("p") or 0) + 1})),
+    # a callable that edits the mapping it is handed and returns it: the library must have handed it a private copy
+    "tags_callable_mutating": (lambda: dict(tags=lambda t: (t.__setitem__("chk", "yes"), t)[1]), lambda p: p.tags.update({"chk": "yes"})),
+    "fields_callable_popping": (lambda: dict(fields=lambda f: (f.pop("p", None), {})[1]), lambda p: None),
     "time_callable": (lambda: dict(time=lambda t: t + timedelta(seconds=2)), lambda p: setattr(p, "time", p.time + timedelta(seconds=2))),
     "meas_static": (lambda: dict(measurement="m1"), lambda p: setattr(p, "measurement", "m1")),
     "unset_and_set": (lambda: dict(unset_tags="a", tags={"a": "q", "d": "w"}, unset_fields=["p", "nope"]),
@@ -473,7 +476,7 @@ OPS = (
     + [["drop", "m0"], ["drop", "m1", "handle"], ["rmall"]]
     + [["upd", "Ta==x", None, "tags_static"], ["upd", "Fp>0", "m0", "fields_callable"], ["upd", "t>=2", None, "time_callable"], ["upd", ["~", "Fp==1"], None, "meas_static"],
        ["upd", "Tb.exists", None, "unset_and_set"], ["upd", "T.noop", "m0", "noop_same", "handle"], ["updall", "fields_callable"], ["updall", "time_callable"],
-       ["hupdall", "m0", "unset_field_p"], ["hupdall", "m0", "unset_tag_a"], ["upd", "Fp>0", None, "unset_field_p"], ["hupdall", "m1", "tags_static"]]
+       ["hupdall", "m0", "unset_field_p"], ["hupdall", "m0", "unset_tag_a"], ["upd", "Fp>0", None, "unset_field_p"], ["hupdall", "m1", "tags_static"], ["upd", "Ta==x", None, "tags_callable_mutating"], ["updall", "tags_callable_mutating"], ["upd", "Fp>0", None, "fields_callable_popping"]]
     + [["badupd", k, "all"] for k in BAD_UPDATES] + [["badupd", "raises_second", "Ta==x"]]
     + [["badread", "tags."], ["badread", 5], ["reindex"], ["reopen"], ["len"]]
 )
